@@ -40,8 +40,9 @@ theorem removed_is_gone (cfg : Cfg) {fwd : Fwd} {B : Body → Bool} (hB : Tag cf
     (u : Nat) (m : Module) (hm : s.find u = some m) :
     (removeModule cfg fwd s u).find u = none ∧ (∀ x ∈ (removeModule cfg fwd s u).mods, x.uid ≠ u) ∧
     u ∉ (removeModule cfg fwd s u).loggers ∧ (∀ t ∈ m.subs, u ∉ idxGet (removeModule cfg fwd s u).idx t) := by
-  have hp := (hf (removePrep s u m) (closedFrame cfg { m with connected := false })
-    (by simp [closedFrame, mgrFrame, hB.1])).1
+  have hp := (logAt_ok cfg hB hf 10 (removePrep s u m)).1.trans
+    (hf (logAt cfg fwd 10 (removePrep s u m)) (closedFrame cfg { m with connected := false })
+      (by simp [closedFrame, mgrFrame, hB.1])).1
   unfold removeModule
   simp only [hm]
   refine ⟨find_filter_eq _ _, fun x hx => by simpa using (List.mem_filter.mp hx).2, fun h => ?_, fun t ht h => ?_⟩
@@ -59,8 +60,9 @@ theorem removed_from_every_type (cfg : Cfg) {fwd : Fwd} {B : Body → Bool} (hB 
   · exact (removed_is_gone cfg hB hf s u m hm).2.2.2 t ht
   · intro h
     apply ht; apply hcons
-    have hp := (hf (removePrep s u m) (closedFrame cfg { m with connected := false })
-      (by simp [closedFrame, mgrFrame, hB.1])).1
+    have hp := (logAt_ok cfg hB hf 10 (removePrep s u m)).1.trans
+      (hf (logAt cfg fwd 10 (removePrep s u m)) (closedFrame cfg { m with connected := false })
+        (by simp [closedFrame, mgrFrame, hB.1])).1
     unfold removeModule at h
     simp only [hm] at h
     have h2 := hp.idx t u h
